@@ -1,7 +1,7 @@
 """C04 — values stay canonical; ==, Hash and ordering follow the numeric value; ill-formed
 (BITS, LIMBS) pairs have no obtainable value.  Umbrella: metadata + the four parts."""
 PID = "C04"
-PARTS = ["c04a", "c04b", "c04c", "c04d"]
+PARTS = ["c04a", "c04b", "c04c", "c04d", "c04e", "c04f", "c04g", "c04h", "c04i"]
 LEVEL = "proof"
 RULE = ("(a) operation histories: random programs of 1..40 instructions over a register file of 2..4 "
         "Uint<BITS,LIMBS> values, opcodes drawn from every modelled family (add/sub/neg, shifts/rotations, "
@@ -13,7 +13,10 @@ RULE = ("(a) operation histories: random programs of 1..40 instructions over a r
         "MASK+1, 2^64-1 and slices of length 0..LIMBS+2 for from_limbs / *_from_limbs_slice, constants, "
         "deterministic word/byte sources for rand 0.8/0.9 and arbitrary, seeded proptest, quickcheck; "
         "(d) one probe program per constructor x ill-formed pair (64,2) (65,1) (0,1) (64,0) (1,0) (128,1) "
-        "(127,3) plus well-formed control pairs; a case is non-trivial when BITS>0 and it is not a "
+        "(127,3) plus well-formed control pairs; (e)-(i) the remaining Uint producers through the cases, models "
+        "and specifications of their own properties (Uint-to-Uint conversions, byte decoders, pow family, div_rem / "
+        "next_multiple_of, widening_mul / inv_ring / Product), whose specifications compare raw limbs with the "
+        "canonical limbs; approx_pow2 with the libm estimate as an observed input; a case is non-trivial when BITS>0 and it is not a "
         "control; distinct = distinct case lines")
 TRUSTED = ["Coq 8.16.1 kernel + vm_compute",
            "hand-written Gallina models coq/Model/{Base,Word,Limbs,Add,Shift,Bits,Conv,Bytes,BaseConv,Str,Float,"
